@@ -28,14 +28,15 @@ type Options struct {
 
 // Outcome of a comparison.
 type Outcome struct {
-	Sig     string // "" when the property held
-	Detail  string
-	Skipped string   // reason the session (or its tail) was not judged: domain flag, reference fuel, parse
-	Judged  int      // statements compared
-	ImplObs []string // per statement
-	RefObs  []string
-	Errors  int // statements that ended in a runtime error in both
-	Steps   int
+	Sig      string // "" when the property held
+	Detail   string
+	Skipped  string   // reason the session (or its tail) was not judged: domain flag, reference fuel, parse
+	Judged   int      // statements compared
+	Executed int      // statements the implementation ran to a value or a documented runtime error
+	ImplObs  []string // per statement
+	RefObs   []string
+	Errors   int // statements that ended in a runtime error in both
+	Steps    int
 }
 
 // DocumentedErrors are the runtime error classes of the language.
@@ -93,10 +94,15 @@ func Compare(stmts []string, opt Options) (o Outcome) {
 			continue
 		}
 		for _, tree := range pr.Trees {
-			var rr refsem.Result
-			if judging || opt.KeepGoing {
-				rr = ref.RunStmt(tree, opt.RefFuel)
+			if judging && refsem.UseBeforeDef(tree) {
+				judging = false
+				o.Skipped = "outside the description: " + refsem.DUseDef
+				if !opt.KeepGoing && !opt.TotalityOnly {
+					return o
+				}
 			}
+			var rr refsem.Result
+			rr = ref.RunStmt(tree, opt.RefFuel)
 			if opt.OnRefStmt != nil {
 				opt.OnRefStmt(i, ref, rr)
 			}
@@ -122,6 +128,11 @@ func Compare(stmts []string, opt Options) (o Outcome) {
 				o.Detail = fmt.Sprintf("%s: the interpreter aborted: %s in %s; reference: %s", where, ir.Panic, ir.PanicSite, RefObs(rr))
 				return o
 			}
+			if ir.FuelOut && !judging {
+				// outside the description the two semantics may legitimately differ in how long they run
+				o.Skipped += "; VM fuel exhausted there"
+				return o
+			}
 			if ir.FuelOut {
 				o.Sig = "non-termination"
 				o.Detail = fmt.Sprintf("%s: the VM executed more than %d instructions where the reference needs %d evaluation steps; reference: %s", where, fuel, rr.Steps, RefObs(rr))
@@ -132,6 +143,7 @@ func Compare(stmts []string, opt Options) (o Outcome) {
 				o.Detail = fmt.Sprintf("%s: error %q is not a documented runtime error", where, ir.Err)
 				return o
 			}
+			o.Executed++
 			if len(rr.Dom) > 0 && judging {
 				judging = false
 				ks := []string{}
@@ -139,7 +151,7 @@ func Compare(stmts []string, opt Options) (o Outcome) {
 					ks = append(ks, k)
 				}
 				o.Skipped = "outside the description: " + strings.Join(ks, ",")
-				if !opt.KeepGoing {
+				if !opt.KeepGoing && !opt.TotalityOnly {
 					return o
 				}
 			}
